@@ -92,7 +92,16 @@ fn edge_keys(rng: &mut Rng, thorough: bool) -> Vec<Vec<u8>> {
     let mut dense = vec![0xffu8; 32]; dense[0] = 0x7f;
     v.push(dense);
     for _ in 0..(if thorough { 40 } else { 3 }) { let mut d = rng.bytes(32); d[0] &= 0x7f; v.push(d); }
+    // 64-bit words that are all ones / 2^63 / 0x77..78 stacked on each other: carries between the words of a signed-window or Booth recoding of the scalar
+    for k in limb_pattern_scalars().into_iter().take(if thorough { 8 } else { 2 }) { if k[0] < 0xf0 { v.push(k); } }
     v
+}
+/// scalars whose 64-bit words are taken from {all ones, 2^63, 0x7777777777777778, 0, 1, arbitrary}: recodings that carry from word to word
+pub fn limb_pattern_scalars() -> Vec<Vec<u8>> {
+    let w = |a: u64, b: u64, c: u64, d: u64| -> Vec<u8> { [a.to_be_bytes(), b.to_be_bytes(), c.to_be_bytes(), d.to_be_bytes()].concat() };
+    let (f, h, s) = (u64::MAX, 1u64 << 63, 0x7777_7777_7777_7778u64);
+    vec![w(0x1a2b3c4d5e6f7081, f, 0x9e3779b97f4a7c15, 0x0123456789abcdef), w(0x0fff_ffff_ffff_ffff, h, f, s), w(0x0123, f, f, f), w(0x7fff_ffff_ffff_ffff, f, f, s),
+         w(1, 0, f, h), w(0x0a, s, f, 0), w(0x3333, f, s, f), w(0x5555_5555_5555_5555, h, h, h), w(f, f, f, f), w(0, 0, 0, f), w(0, f, 0, s), w(0x8888_8888_8888_8888, 0x8888_8888_8888_8888, f, 0x8888_8888_8888_8888)]
 }
 
 pub fn drive_sign(t: &mut Tracer, tier: &str, seed: u64, plan: Option<String>) {
@@ -106,12 +115,34 @@ pub fn drive_sign(t: &mut Tracer, tier: &str, seed: u64, plan: Option<String>) {
     if let Some(sig) = sign_event(t, &sess(), &annex, "1234567812345678", None, b"message digest", vec![kn]) {
         verify_event(t, &sess(), "C03", &annex.pk65, "1234567812345678", None, b"message digest", &sig, "none");
     }
+    // (a2) a private key IMPORTED from a PKCS#8 document whose optional publicKey field is another key's point (or the negated point): if the import succeeds the key
+    //      is the scalar d of the document and signs as d -- Z_A is computed from [d]G, whatever the document carried along
+    {
+        let (k1, k2) = (key_from(&{ let mut d = rng.bytes(32); d[0] &= 0x7f; d }).unwrap(), key_from(&{ let mut d = rng.bytes(32); d[0] &= 0x7f; d }).unwrap());
+        if let Ok(doc) = k1.sk.to_pkcs8_der() {
+            let base = doc.as_bytes().to_vec();
+            if base.len() == 138 {
+                let mut neg = k1.pk65.clone(); let ny = be_sub(&hexb(P_HEX), &k1.pk65[33..65]); neg[33..65].copy_from_slice(&ny);
+                for (i, other) in [k2.pk65.clone(), neg, k1.pk65.clone()].iter().enumerate() {
+                    let mut d2 = base.clone(); d2[73..138].copy_from_slice(other);
+                    if let Outcome::Ok(sk) = guard(|| Sm2PrivateKey::from_pkcs8_der(&d2)) {
+                        let imported = Key { sk, d: k1.d.clone(), pk65: k1.pk65.clone() };
+                        let mut kk = rng.bytes(32); kk[0] &= 0x7f;
+                        if let Some(sig) = sign_event(t, &sess(), &imported, ["imported", "1234567812345678", "x"][i], None, b"key imported from a document", vec![b32(&kk)]) {
+                            verify_event(t, &sess(), "C03", &k1.pk65, ["imported", "1234567812345678", "x"][i], None, b"key imported from a document", &sig, "none");
+                        }
+                    }
+                }
+            }
+        }
+    }
     // (b) edge and random keys x IDs x message lengths; free nonce (recorded by the hook) and fixed boundary nonces
     let keys = edge_keys(&mut rng, thorough);
     let long_id: String = std::iter::repeat('A').take(8191).collect();
     // (IDs of 53 / 54 bytes put the Z_A hash input, 2 + |ID| + 192 bytes, at SM3's padding boundary 55 / 56 mod 64)
     let ids: Vec<String> = vec!["1234567812345678".into(), "".into(), "x".into(), "ALICE123@YAHOO.COM".into(), long_id, "i".repeat(53), "j".repeat(54),
-        "\u{7528}\u{6237}A@\u{793a}\u{4f8b}.cn".into(), "caf\u{e9}-\u{101}\u{201}".into()];      // non-ASCII identities: Z_A hashes the UTF-8 BYTES (ENTL = their bit length)
+        "\u{7528}\u{6237}A@\u{793a}\u{4f8b}.cn".into(), "caf\u{e9}-\u{101}\u{201}".into(),
+        " padded ".into(), "line\n".into(), "\ttab".into(), "nul\0".into(), "\0".into(), "MiXeD-Case".into()];      // edge white space, NUL, letter case: hashed as they are      // non-ASCII identities: Z_A hashes the UTF-8 BYTES (ENTL = their bit length)
     let g = Gen::new("mix", rng.below(1 << 20));
     // (23 / 24 put the digest input Z_A || M, 32 + |M| bytes, at SM3's padding boundary)
     let lens: Vec<usize> = if thorough { vec![0, 1, 23, 24, 31, 32, 33, 55, 56, 64, 87, 100, 1000, 4096] } else { vec![0, 1, 23, 24, 32, 100, 700] };
@@ -239,6 +270,10 @@ pub fn drive_verify(t: &mut Tracer, tier: &str, seed: u64, plan: Option<String>)
         verify_event(t, &sess(), "C04", &key.pk65, &uid, None, &m3, &sig, "altered-msg");
         verify_event(t, &sess(), "C04", &key.pk65, &uid, None, &[m.clone(), vec![0]].concat(), &sig, "altered-msg");
         verify_event(t, &sess(), "C04", &key.pk65, &format!("{}x", uid), Some(&g), &m, &sig, "altered-id");
+        // identities that differ only by edge white space, a trailing NUL, or letter case: different byte strings, so different Z_A
+        for alt in [format!("{} ", uid), format!(" {}", uid), format!("{}\n", uid), format!("{}\t", uid), format!("{}\0", uid), uid.to_uppercase(), uid.trim().to_string()] {
+            if alt != uid { verify_event(t, &sess(), "C04", &key.pk65, &alt, Some(&g), &m, &sig, "altered-id-edge"); }
+        }
         // the empty identity and the default identity are DIFFERENT identities (ENTL = 0 vs 128 bits)
         if uid == "1234567812345678" { verify_event(t, &sess(), "C04", &key.pk65, "", Some(&g), &m, &sig, "altered-id"); }
         {
@@ -661,14 +696,26 @@ struct KxRun { t_ra: bool, t_rb: bool, t_sb: bool, t_sa: bool, kind: String, kle
 
 fn kx_run(t: &mut Tracer, sess: &str, run: &KxRun, rng: &mut Rng) {
     use std::sync::{Arc, Mutex};
-    let (ka, kb) = match (key_from(&run.da), key_from(&run.db)) { (Some(a), Some(b)) => (a, b), _ => return };
+    // none_mask bit 7 (128): the two parties are built by the public helper build_ex_pair (it draws both key pairs itself -- here from the scripted candidates
+    // da, db; the keys actually drawn are read back from the sampler log) instead of Exchange::new
+    let mut pair: Option<(Exchange, Exchange)> = None;
+    let (mut da_used, mut db_used) = (run.da.clone(), run.db.clone());
+    if run.none_mask & 128 != 0 {
+        let (i1, i2, klen) = (leak(&run.ida), leak(&run.idb), run.klen);
+        let (o, ks) = hooked(move || gm_sm2::exchange::build_ex_pair(klen, i1, i2), vec![b32(&run.da), b32(&run.db)]);
+        match o { Outcome::Ok(p) if ks.len() == 2 => { da_used = ks[0].clone(); db_used = ks[1].clone(); pair = Some(p); } _ => return }
+    }
+    let (ka, kb) = match (key_from(&da_used), key_from(&db_used)) { (Some(a), Some(b)) => (a, b), _ => return };
     // none_mask: bit 0 = A passes None for its own ID, 1 = A passes None for the peer's ID, 2 = B own, 3 = B peer (only where that ID IS the default
     // ID "1234567812345678": None must mean exactly that ID, for either role)
     let dflt = "1234567812345678";
     let opt = |id: &'static str, bit: u8| if run.none_mask & (1 << bit) != 0 && id == dflt { None } else { Some(id) };
     let (ida_s, idb_s) = (leak(&run.ida), leak(&run.idb));
     let mk = |me: &Key, id: Option<&'static str>, other: &Key, oid: Option<&'static str>| Exchange::new(run.klen, id, &me.sk.public_key, &me.sk, oid, &other.sk.public_key);
-    let (a, b) = match (mk(&ka, opt(ida_s, 0), &kb, opt(idb_s, 1)), mk(&kb, opt(idb_s, 2), &ka, opt(ida_s, 3))) { (Ok(a), Ok(b)) => (Arc::new(Mutex::new(a)), Arc::new(Mutex::new(b))), _ => return };
+    let (a, b) = match pair {
+        Some((a, b)) => (Arc::new(Mutex::new(a)), Arc::new(Mutex::new(b))),
+        None => match (mk(&ka, opt(ida_s, 0), &kb, opt(idb_s, 1)), mk(&kb, opt(idb_s, 2), &ka, opt(ida_s, 3))) { (Ok(a), Ok(b)) => (Arc::new(Mutex::new(a)), Arc::new(Mutex::new(b))), _ => return },
+    };
     let common = json!({"prop": "C15", "pkA": bytes(&ka.pk65), "pkB": bytes(&kb.pk65), "idA": bytes(run.ida.as_bytes()), "idB": bytes(run.idb.as_bytes()), "klen": run.klen});
     let with = |extra: Value| { let mut m = common.clone(); for (k, v) in extra.as_object().unwrap() { m[k] = v.clone(); } m };
     let tam = |flag: bool| if flag || run.none_mask & 16 != 0 { run.kind.clone() } else { "none".to_string() };
@@ -742,6 +789,12 @@ pub fn drive_kex(t: &mut Tracer, tier: &str, seed: u64, plan: Option<String>) {
     for klen in [16usize, 48] {
         let run = KxRun { t_ra: false, t_rb: false, t_sb: false, t_sa: false, kind: "none".into(), klen, ida: "alice-again".into(), idb: "bob-again".into(),
             ra_script: vec![], rb_script: vec![], da: rk(&mut rng), db: rk(&mut rng), forge: None, none_mask: 64 };
+        kx_run(t, &sess(), &run, &mut rng);
+    }
+    // identities with edge white space / NUL / mixed case, through Exchange::new and through the helper build_ex_pair (bit 7)
+    for (ida, idb, mask) in [(" alice ", "bob\n", 0u8), ("alice\0", "\tbob", 0), ("ALICE", "alice", 0), (" alice ", "bob\n", 128), ("alice123@qq.com ", "bob", 128), ("plain-a", "plain-b", 128)] {
+        let run = KxRun { t_ra: false, t_rb: false, t_sb: false, t_sa: false, kind: "none".into(), klen: 20, ida: ida.into(), idb: idb.into(), ra_script: vec![], rb_script: vec![],
+            da: rk(&mut rng), db: rk(&mut rng), forge: None, none_mask: mask };
         kx_run(t, &sess(), &run, &mut rng);
     }
     // non-ASCII identities (multi-byte UTF-8): Z_A / Z_B hash the identity's bytes
@@ -1012,6 +1065,14 @@ pub fn drive_codec(t: &mut Tracer, tier: &str, seed: u64) {
         codec_decode_event(t, &sess(), "pk_bytes", &ff, "coords>=p", false);
         codec_decode_event(t, &sess(), "pk_hex", b"zz", "bad-hex", false);
         codec_decode_event(t, &sess(), "pk_hex", b"04abc", "bad-hex", false);
+        // the bare X || Y form (64 bytes: a valid uncompressed key without its 04 tag) is not a SEC1 encoding: bytes, hex, and as the BIT STRING of an SPKI
+        {
+            let bare = pku[1..].to_vec();
+            codec_decode_event(t, &sess(), "pk_bytes", &bare, "untagged", false);
+            codec_decode_event(t, &sess(), "pk_hex", hex::encode(&bare).as_bytes(), "untagged", false);
+            let spki_bare = [hexb("3058301306072a8648ce3d020106082a811ccf5501822d034100"), bare.clone()].concat();
+            codec_decode_event(t, &sess(), "spki_der", &spki_bare, "untagged", false);
+        }
         // a VALID encoding followed by one stray hex digit (an odd number of digits is not hex): every decoder that takes text
         for extra in ["0", "f"] {
             codec_decode_event(t, &sess(), "pk_hex", format!("{}{}", hex::encode(&pku), extra).as_bytes(), "odd-digits", false);
@@ -1252,6 +1313,7 @@ pub fn drive_ec(t: &mut Tracer, tier: &str, seed: u64, plan: Option<String>) {
     for d in 1..=40i64 { if thorough || d % 4 == 2 || d == 1 { scalars.push(be_add_small(&nhex, d)); } }
     for _ in 0..(if thorough { 40 } else { 6 }) { scalars.push(rng.bytes(32)); }
     for w in 0..4 { scalars.push(crate::suites::sm9::sparse_scalar(&mut rng, w)); }       // zero 64-bit limbs / zero nibbles
+    for k in limb_pattern_scalars() { scalars.push(k); }
     for (i, k) in scalars.iter().enumerate() {
         let base = if i % 2 == 0 { pts[i % pts.len()].to_affine_point() } else { pts[i % pts.len()] };
         let ku = be_u256(k);
@@ -1335,6 +1397,48 @@ pub fn drive_ec(t: &mut Tracer, tier: &str, seed: u64, plan: Option<String>) {
                 let ob = o.ok().map(|v| u256_be(v)).unwrap_or(vec![0u8; 32]);
                 t.emit(&sess(), "fp.op", json!({"prop": "C11", "f": "tmul", "cls": format!("{}.stored-special", ca), "a": bytes(&x), "b": bytes(&y), "out": bytes(&ob), "outcome": o.name(), "detail": o.detail()}));
             }
+        }
+    }
+    // operands whose STORED form has its low 64-bit words zero (k * 2^64, k * 2^128, k * 2^192): the low half of the 512-bit product, and of the
+    // Montgomery correction term, is zero -- the carry out of the low half is NOT implied by "both operands non-zero"
+    {
+        let sp = |hi: [u64; 4]| -> Vec<u8> { u256_be(&hi) };
+        let sparse: Vec<Vec<u8>> = vec![sp([0, 0, 0x1234_5678_9abc_def1, 0x0fed_cba9]), sp([0, 0, 1, 0]), sp([0, 0, 0, 1]), sp([0, 0, 0, 0x8000_0000_0000_0000]), sp([0, 1, 0, 0]), sp([0, 0, u64::MAX, 0x7fff_ffff]),
+                                        sp([0, 0x8000_0000_0000_0000, 0, 0]), sp([0, 0, 0x8000_0000_0000_0000, 0]), sp([0, 0, 0, 0xffff_fffe_0000_0000])];
+        for (i, a) in sparse.iter().enumerate() {
+            for (j, b) in sparse.iter().enumerate() {
+                if !thorough && (i + 2 * j) % 3 != 0 { continue; }
+                let (au, bu) = (be_u256(a), be_u256(b));
+                for f in ["mul", "tmul"] {
+                    let o = gp(|| if f == "mul" { verif::fp_mont_mul(&au, &bu) } else { verif::fp_mul(&au, &bu) });
+                    let ob = o.ok().map(|x| u256_be(x)).unwrap_or(vec![0u8; 32]);
+                    t.emit(&sess(), "fp.op", json!({"prop": "C11", "f": f, "cls": "low-words-zero", "a": bytes(a), "b": bytes(b), "out": bytes(&ob), "outcome": o.name(), "detail": o.detail()}));
+                }
+            }
+            let au = be_u256(a);
+            let o = gp(|| verif::fp_sqr(&au));
+            let ob = o.ok().map(|x| u256_be(x)).unwrap_or(vec![0u8; 32]);
+            t.emit(&sess(), "fp.op", json!({"prop": "C11", "f": "sqr", "cls": "low-words-zero", "a": bytes(a), "b": bytes(&[0u8; 32]), "out": bytes(&ob), "outcome": o.name(), "detail": o.detail()}));
+        }
+        // the same shapes modulo n
+        for (i, a) in sparse.iter().enumerate() {
+            let b = &sparse[(i * 5 + 2) % sparse.len()];
+            let (au, bu) = (be_u256(a), be_u256(b));
+            let o = gp(|| verif::fn_mul(&au, &bu));
+            let ob = o.ok().map(|x| u256_be(x)).unwrap_or(vec![0u8; 32]);
+            t.emit(&sess(), "fn.op", json!({"prop": "C11", "f": "mul", "cls": "low-words-zero", "a": bytes(a), "b": bytes(b), "out": bytes(&ob), "outcome": o.name(), "detail": o.detail()}));
+        }
+    }
+    // exponentiation modulo p with exponents that contain EVERY window digit (the library itself only uses p - 2 and (p + 1) / 4)
+    {
+        let mut exps: Vec<Vec<u8>> = vec![be_add_small(&vec![0u8; 32], 9), hexb("0123456789abcdef0123456789abcdef0123456789abcdeffedcba9876543210"), vec![0x99u8; 32], vec![0xffu8; 32], be_add_small(&vec![0u8; 32], 0)];
+        for _ in 0..(if thorough { 12 } else { 3 }) { exps.push(rng.bytes(32)); }
+        for (i, e) in exps.iter().enumerate() {
+            let (a, _) = &vals[(i * 3 + 1) % vals.len()];
+            let (au, eu) = (be_u256(a), be_u256(e));
+            let o = gp(|| verif::fp_pow(&au, &eu));
+            let ob = o.ok().map(|x| u256_be(x)).unwrap_or(vec![0u8; 32]);
+            t.emit(&sess(), "fp.op", json!({"prop": "C11", "f": "pow", "cls": "all-digits", "a": bytes(a), "b": bytes(e), "out": bytes(&ob), "outcome": o.name(), "detail": o.detail()}));
         }
     }
     let nvals = boundary_values(N_HEX, &mut rng, if thorough { 30 } else { 6 });
